@@ -107,9 +107,21 @@ def replay_fault(req, tmp):
         plan = Plan(faults, bool(req.get('fault_in_open')))
         what = 'faults %s' % faults
     f = FaultyBlob(path, plan) if req.get('backend') == 'blob' else FaultyFile(path, plan)
+    if req.get('truncate') and req.get('backend') != 'blob':
+        # a cut file needs no injecting wrapper: the reader gets a real file object (with readinto, memory mapping, ... -
+        # whatever the code under test may use)
+        f.close()
+
+        class _Real:
+            def __init__(self, p):
+                self.h = open(p, 'rb')
+
+            def close(self):
+                self.h.close()
+        f = _Real(path)
     call = C.call + ', ' + what
     try:
-        r = R.SgzReader(f, preload=bool(req.get('preload')))
+        r = R.SgzReader(getattr(f, 'h', f), preload=bool(req.get('preload')))
     except Exception as e:
         return dict(reproduced=False, detail='open raised %s' % type(e).__name__)
     r._verif_stored = tuple(C.stored)
